@@ -242,6 +242,25 @@ def task_vector_points():
         out.append(ob("%s:vector-points-with-nodes[%s]" % (fn, tag), fn, FAILED if bad else PROVED, "B", "concrete", 0.0,
                       bad or "3-D control points, end nodes interpolated: the returned error is the worst coordinate's squared-residual integral",
                       dict(kind="c11.vector-nodes", tag=tag) if bad else None))
+    # the EMPTY node set (and node sets given as a tuple / list / numpy array): no constraint -> the plain L2 projection, the same result as without nodes
+    for label, nodes in (("()", ()), ("[]", []), ("ndarray-of-two", np.array([0.0, 1.0]))):
+        bad = None
+        try:
+            Us, Ut = vec(2, (1, 0, 0), 0), vec(1, (1, 0, 0), 0)
+            if label == "ndarray-of-two":
+                Us, Ut = [float(x) for x in Us], [float(x) for x in Ut]
+                nodes = np.array([Us[0], Us[-1]])
+            ns = len(Us) - 3
+            P = [type(Us[0])(F((-1) ** i * (i + 2), 3)) if label != "ndarray-of-two" else float(F((-1) ** i * (i + 2), 3)) for i in range(ns)]
+            ref, dst = curves.Curve(list(Ut)), curves.Curve(list(Ut))
+            e0 = ref.fit_curve(curves.Curve(list(Us), list(P)), None if label != "ndarray-of-two" else (Us[0], Us[-1]))
+            e1 = dst.fit_curve(curves.Curve(list(Us), list(P)), nodes)
+            if any(abs(float(a) - float(b)) > 1e-12 for a, b in zip(dst.ctrlpoints, ref.ctrlpoints)) or abs(float(e0) - float(e1)) > 1e-12:
+                bad = "control points %s / error %s, expected %s / %s" % (list(dst.ctrlpoints), e1, list(ref.ctrlpoints), e0)
+        except Exception as e:
+            bad = "%s: %s" % (type(e).__name__, str(e)[:100])
+        out.append(ob("%s:node-set-forms[%s]" % (fn, label), fn, FAILED if bad else PROVED, "B", "concrete", 0.0,
+                      bad or "same result as the equivalent call", dict(kind="c11.nodeforms", label=label) if bad else None))
     return out + [{"_stats": dict(cases=len(out))}]
 
 
@@ -259,6 +278,9 @@ def tasks(tier, seed):
 
 def replay(o):
     w = o["witness"]
+    if w.get("kind") == "c11.nodeforms":
+        r = [x for x in task_vector_points() if "id" in x and x["id"].endswith("node-set-forms[%s]" % w["label"])][0]
+        return r["status"] == "failed", "same result as the equivalent call", r["detail"]
     if w.get("kind") == "c11.vector-nodes":
         r = [x for x in task_vector_points() if "id" in x and x["id"].endswith("with-nodes[%s]" % w["tag"])][0]
         return r["status"] == "failed", "end nodes interpolated; error == worst coordinate's squared-residual integral (or half of it)", r["detail"]
